@@ -156,7 +156,7 @@ impl<W: Write> Encoder<W> {
 
     /// Encode a CBOR simple value.
     pub fn simple(&mut self, x: u8) -> Result<&mut Self, Error<W::Error>> {
-        if x < 0x14 {
+        if x < 0x18 {
             self.put(&[SIMPLE | x])
         } else {
             self.put(&[SIMPLE | 24, x])
